@@ -193,8 +193,16 @@ def in_scope(c, level, node_kind, n, owner):
 
 
 # ------------------------------------------------------------------------------------------------ per-relation forms
-def _rel(c, parent_cls, child_cls, coll_field, wrapper_cls, parent_field, wrapper_of_parent=None):
-    """parent/child relation kept from both ends:  child in parent.<coll_field>  <=>  child.<parent_field> is parent."""
+def pending(c):
+    """(P, owner): ghost description of a bulk insertion in progress (ByteInterval._BlockSet.update): the
+    blocks in P already point to `owner` but are not yet in its block set.  Empty outside that loop."""
+    g = getattr(c.eng, "ghost", None) or {}
+    return g.get("P", EmptySet), g.get("P_owner", z3.IntVal(-1))
+
+
+def _rel(c, parent_cls, child_cls, coll_field, wrapper_cls, parent_field, pend=None):
+    """parent/child relation kept from both ends:  child in parent.<coll_field>  <=>  child.<parent_field> is parent
+    (modulo the pending set of a bulk insertion, see pending())."""
     p = fresh("p", Int)
     ch = fresh("ch", Int)
     v = fresh("v", Val)
@@ -208,12 +216,16 @@ def _rel(c, parent_cls, child_cls, coll_field, wrapper_cls, parent_field, wrappe
                                             c.get(parent_field, ref(v)) == VRef(p)))),
         z3.ForAll([ch], z3.Implies(c.isinst(ch, child_cls), z3.Or(is_VNone(pv), z3.And(
             is_VRef(pv), c.isinst(ref(pv), parent_cls),
-            z3.Select(data(c, c.get(coll_field, ref(pv))), VRef(ch)))))),
+            z3.Or(z3.Select(data(c, c.get(coll_field, ref(pv))), VRef(ch)),
+                  z3.And(ref(pv) == pend[1], z3.Select(pend[0], VRef(ch)),
+                         z3.Not(z3.Select(data(c, c.get(coll_field, ref(pv))), VRef(ch)))) if pend is not None
+                  else z3.BoolVal(False)))))),
     )
 
 
 def rel_block(c):
-    return _rel(c, "ByteInterval", "ByteBlock", "blocks", "ByteInterval._BlockSet", "_byte_interval")
+    return _rel(c, "ByteInterval", "ByteBlock", "blocks", "ByteInterval._BlockSet", "_byte_interval",
+                pend=pending(c))
 
 
 def rel_interval(c):
@@ -230,6 +242,20 @@ def rel_symbol(c):
 
 def rel_proxy(c):
     return _rel(c, "Module", "ProxyBlock", "proxies", "Module._NodeSet", "_module")
+
+
+def wrappers_owned(c):
+    """every owning-set object is the collection of exactly one owner (they are created only by the owners'
+    constructors - Schema.shape_checks verifies that syntactically)"""
+    w = fresh("w", Int)
+    own = c.get("_node", w)
+
+    def owned(wcls, pcls, fields):
+        return z3.Implies(kind_is(c, w, wcls), z3.And(is_VRef(own), c.isinst(ref(own), pcls),
+                                                      z3.Or([c.get(f, ref(own)) == VRef(w) for f in fields])))
+    return z3.ForAll([w], z3.And(owned("ByteInterval._BlockSet", "ByteInterval", ["blocks"]),
+                                 owned("Section._ByteIntervalSet", "Section", ["byte_intervals"]),
+                                 owned("Module._NodeSet", "Module", ["sections", "symbols", "proxies"])))
 
 
 def rel_module(c):
